@@ -75,6 +75,12 @@ def r03n(ctx):
         if not keys:
             continue
         ctor = a.value if isinstance(a.value, ast.Call) else None
+        if isinstance(a.value, ast.Name):
+            # the part was constructed in an earlier statement: every definition of that local in the function must be one constructor call
+            defs = [d.value for d in walk_no_nested(f.node) if isinstance(d, (ast.Assign, ast.AnnAssign)) and d is not a and d.value is not None
+                    and any(isinstance(x, ast.Name) and x.id == a.value.id and isinstance(x.ctx, ast.Store) for t in (d.targets if isinstance(d, ast.Assign) else [d.target]) for x in ast.walk(t))]
+            calls = [d for d in defs if isinstance(d, ast.Call) and d.args and not (isinstance(d.func, ast.Attribute) and d.func.attr == "get")]
+            ctor = calls[0] if len(calls) == 1 else None
         if ctor is None or not ctor.args:
             continue
         n += 1
@@ -173,12 +179,19 @@ def r12t(ctx):
         n += 1
         none = r.value is None or (isinstance(r.value, ast.Constant) and r.value.value is None)
         guards = structural_guards(r)
+
+        def says_none(t, pol):
+            """True: the guard says `getparent() result is None`; False: says it is not None; None: another condition"""
+            if isinstance(t, ast.Compare) and len(t.ops) == 1 and isinstance(t.ops[0], (ast.Is, ast.IsNot)) and isinstance(t.comparators[0], ast.Constant) \
+                    and t.comparators[0].value is None and "getparent()" in canon(f, t.left):
+                return pol == isinstance(t.ops[0], ast.Is)
+            return None
+        said = [says_none(t, pol) for t, pol in guards]
         if none:
-            ok = len(guards) == 1 and guards[0][1] and isinstance(guards[0][0], ast.Compare) and isinstance(guards[0][0].ops[0], ast.Is) \
-                and "getparent()" in canon(f, guards[0][0].left)
+            ok = bool(said) and all(x is True for x in said)
         else:
-            ok = isinstance(r.value, ast.Call) and call_name(r.value) == "from_tag" and r.value.args and "getparent()" in canon(f, r.value.args[0]) \
-                and all(not pol and "getparent()" in canon(f, getattr(t, "left", t)) for t, pol in guards)
+            ok = isinstance(r.value, ast.Call) and call_name(r.value) == "from_tag" and bool(r.value.args) and "getparent()" in canon(f, r.value.args[0]) \
+                and all(x is False for x in said)
         ctx.instance("R12t", f"{f.file}:{f.ident}", norm(r, 50), ok=ok, nontrivial=True, line=r.lineno)
         if not ok:
             ctx.report("R12t", f, r, norm(r, 50),
